@@ -160,7 +160,9 @@ class DiffEqSolver:
         # quadrature
         n = degree//2+1
 
-        self._mVals = np.fft.fftfreq(nTheta, 1/nTheta)
+        # The mode numbers are integers (fftfreq is not exact for all sizes,
+        # e.g. nTheta=49 gives 1.0000000000000002)
+        self._mVals = np.rint(np.fft.fftfreq(nTheta, 1/nTheta))
 
         if rspline.cubic_uniform:
             knots = make_knots(rspline.breaks, 3, False)
